@@ -347,7 +347,7 @@ PLANS = {
                 gen=[G("format", 400, 12000, "TraceLayout", "TraceLayout_C09.cfg", extra=["--raw"]),
                      # the same through a sink that accepts partial writes: recorded offsets must still be right
                      G("format", 120, 3000, "TraceLayout", "TraceLayout_C09.cfg", extra=["--wsched", "rand7"]),
-                     G("chunks", 32, 800, "TraceLayout", "TraceLayout_C09.cfg", extra=["--raw"]),
+                     G("chunks", 32, 160, "TraceLayout", "TraceLayout_C09.cfg", extra=["--raw"], heavy=False),
                      G("varint_windows", 2, 8, "TraceVarint", "TraceVarint_C09.cfg")]),
     "C11": dict(level="model_checking", assumptions=TRUST + ["stream equality is judged on (length, two independent 31-bit digests)", "read-side: results under a schedule are validated against the same contract specifications as the whole-buffer runs"],
                 mc=[MC("MCIO", "MCIO_W.cfg", workers=2), MC("MCIO", "MCIO_R.cfg", workers=2),
@@ -390,12 +390,12 @@ PLANS = {
                 extra=[writer_model(["L3K1", "L4K3"], 40, 400)],
                 gen=[G("cut", 300, 10000, "TraceLayout", "TraceLayout_C15.cfg"),
                      # the files the sorter writes itself (spilled and merged chunks)
-                     G("chunks", 48, 1500, "TraceLayout", "TraceLayout_C15.cfg")]),
+                     G("chunks", 48, 320, "TraceLayout", "TraceLayout_C15.cfg", heavy=False)]),
     "C17": dict(level="other", crash_is_violation=True, extra=[sorter_model(["a", "b", "c"], 30, 400), apalache_sorter], explanation="Partial: decides the allocation protocol (layout equality, guard words, double free, leak of the sorter buffer class), the sorter's two-ended buffer bookkeeping (hook H2) and arithmetic overflow (checked build) on executions of the real code, validated by TLC against Alloc.tla. Out-of-bounds READS, use of freed memory through a lifetime-extended reference, alignment and provenance violations leave no trace in these events and are NOT decided (needs Miri/ASan, a different technique family).",
                 assumptions=TRUST + ["monitoring global allocator of the harness process (header + canaries per block)", "hook H2 exposes the sorter's buffer accounting", "overflow checks of the dev-profile build"],
                 mc=[MC("MCSorter", "MCSorter_acct_realloc.cfg", workers=4), MC("MCSorter", "MCSorter_acct_fixed.cfg", workers=4),
                     MC("MCSorter", "MCSorter_acct_big.cfg", workers=4)],
-                gen=[G("alloc", 240, 8000, "TraceAlloc", "TraceAlloc.cfg"),
+                gen=[G("alloc", 240, 4000, "TraceAlloc", "TraceAlloc.cfg", timeout=7200),
                      G("alloc", 60, 1000, "TraceSorterB", "TraceSorterB.cfg", drift=True),
                      G("alloc_readers", 40, 1200, "TraceAlloc", "TraceAlloc.cfg"),
                      # a merge function that failed once, a caller that keeps pulling: values handed out stay live memory
